@@ -25,6 +25,7 @@ import (
 	"github.com/olive-io/bpmn/schema"
 	"github.com/olive-io/bpmn/v2/pkg/clock"
 	"github.com/olive-io/bpmn/v2/pkg/errors"
+	"github.com/olive-io/bpmn/v2/pkg/verifhook"
 )
 
 func New(ctx context.Context, clock clock.IClock, definition schema.TimerEventDefinition) (ch chan schema.TimerEventDefinition, err error) {
@@ -109,6 +110,7 @@ func recurringTimer(ctx context.Context, clock clock.IClock, interval iso8601.Re
 			return
 		}
 
+		verifhook.Point("timer.cycle")
 		timer = clock.Until(t.Add(interval.Interval.Duration.Duration))
 
 		if interval.Interval.End != nil {
@@ -139,6 +141,7 @@ func dateTimeTimer(ctx context.Context, clock clock.IClock, t time.Time, f func(
 		case <-ctx.Done():
 			return
 		case <-timer:
+			verifhook.Point("timer.fire")
 			f()
 			return
 		}
